@@ -299,8 +299,16 @@ def finish(rep, model, quiet=False):
     for e in rep.errors:
         out.append("ANALYSIS-ERROR property=%s %s" % (rep.prop, e))
     if not quiet:
-        print("%s [%s]: %d rule instances, %d/%d obligations discharged, %d known finding(s), %d violation(s), %.2fs"
-              % (rep.prop, rep.tier, len(rep.instances), rep.discharged, rep.obligations, len(kf), len(viol), wall))
-        for line in out:
-            print(line)
+        try:
+            print("%s [%s]: %d rule instances, %d/%d obligations discharged, %d known finding(s), %d violation(s), %.2fs"
+                  % (rep.prop, rep.tier, len(rep.instances), rep.discharged, rep.obligations, len(kf), len(viol), wall))
+            for line in out:
+                print(line)
+            sys.stdout.flush()
+        except BrokenPipeError:
+            # the reader went away (e.g. `| head -1`); the verdict is the exit code and the evidence file
+            try:
+                sys.stdout = open(os.devnull, "w")
+            except OSError:
+                pass
     return 1 if viol else (2 if rep.errors else 0)
